@@ -859,23 +859,28 @@ class KernFeatureWriter(BaseFeatureWriter):
         # own still needs the kerning between common glyphs (punctuation, digits):
         # once the script has a record in GPOS -- the mark features are registered
         # for every declared script -- nothing of DFLT applies to its runs.
-        if isKernBlock:
-            commonLookups = {}
-            for dfltScript in DFLT_SCRIPTS:
-                if dfltScript in lookups:
-                    commonLookups.update(lookups[dfltScript])
-            distTags = {
-                tag
-                for script in DIST_ENABLED_SCRIPTS
-                for tag in unicodedata.ot_tags_from_script(script)
-            }
-            for tag, languages in sorted(feaLanguagesByScript.items()):
-                if commonLookups and tag != "DFLT" and tag not in referenced | distTags:
-                    if feature.statements:
-                        feature.statements.append(ast.Comment(""))
-                    ast.addLookupReferences(
-                        feature, commonLookups.values(), tag, languages
-                    )
+        # (the scripts that shapers kern through 'dist' get them in the dist block)
+        commonLookups = {}
+        for dfltScript in DFLT_SCRIPTS:
+            if dfltScript in lookups:
+                commonLookups.update(lookups[dfltScript])
+        distTags = {
+            tag
+            for script in DIST_ENABLED_SCRIPTS
+            for tag in unicodedata.ot_tags_from_script(script)
+        }
+        for tag, languages in sorted(feaLanguagesByScript.items()):
+            if (
+                commonLookups
+                and tag != "DFLT"
+                and tag not in referenced
+                and (tag in distTags) != isKernBlock
+            ):
+                if feature.statements:
+                    feature.statements.append(ast.Comment(""))
+                ast.addLookupReferences(
+                    feature, commonLookups.values(), tag, languages
+                )
 
 
 def splitKerning(pairs, glyphScripts):
